@@ -78,7 +78,7 @@ CLAIMS = {
         "note": "PARTIAL: polls are atomic in the model; thread interleavings are not covered by the theorems. event-listener is modelled, not verified. Reading: a never-polled live upgrade future counts as a holder.",
     },
     "C09": {
-        "text": "For every n and every finite history of the poll-granular Barrier model (any number of waits, spurious polls, new wakers, cancellation at any point, any number of generations): arrivals = generations * max(n,1) + count with count < max(n,1) and exactly one leader per completed generation (C09_accounting); a follower returns only when its arrival generation is complete and the leader is the arrival that completes it (C09_no_early); at quiescence no live wait of a completed generation is pending (C09_release); a wait of the current generation never completes whatever notification reaches it (C09_isolation) - Lean theorems from the invariant BInv. " + _TIE + " Compared fields: outcome (leader/follower), wakers called, inner mutex word, count, generation, listener counts." + (_CALLS % "C09") + _SEARCH,
+        "text": "For every n and every finite history of the poll-granular Barrier model (any number of waits, spurious polls, new wakers, cancellation at any point, any number of generations): arrivals = generations * max(n,1) + count with count < max(n,1) and exactly one leader per completed generation (C09_accounting); a follower returns only when its arrival generation is complete and the leader is the arrival that completes it (C09_no_early); at quiescence no live wait of a completed generation is pending (C09_release); a wait of the current generation never completes whatever notification reaches it (C09_isolation) - Lean theorems from the invariant BInv. " + _TIE + " Compared fields: outcome (leader/follower), wakers called, inner mutex word, count, generation, listener counts." + (_CALLS % "C09") + _SEARCH + _INJW,
         "note": "PARTIAL: atomic polls (the embedded mutex's slow path and thread interleavings are not exercised by this model); wait_blocking not modelled.",
     },
     "C10": {
